@@ -14,10 +14,28 @@ import (
 	"github.com/nginx/nginx-gateway-fabric/verifharness/rng"
 )
 
-const (
-	longTimeout  = 3 * time.Second
-	shortTimeout = 160 * time.Millisecond
+// Timeouts of the code under test, scaled down from PidFileTimeout (10 s) / NginxReloadTimeout (60 s).
+// The polls run every 25 ms (version, children) / 500 ms (pid file): a scripted event at index <= 6 is
+// due after <= 150 ms (pid file: index 1 after 500 ms), so longTimeout / pidLongTimeout leave a safety
+// factor >= 50 on an idle machine; `-scale` multiplies everything for the isolated re-run of a case
+// whose result differed from the model (machine under load).
+var (
+	longTimeout    = 10 * time.Second
+	pidLongTimeout = 30 * time.Second
+	shortTimeout   = 300 * time.Millisecond
+	midTimeout     = 4 * time.Second
+	pidNever       = 650 * time.Millisecond
+	outerTimeout   = 150 * time.Second
 )
+
+func setScale(k int) {
+	if k <= 1 {
+		return
+	}
+	d := time.Duration(k)
+	longTimeout, pidLongTimeout, shortTimeout, midTimeout, pidNever, outerTimeout =
+		longTimeout*d, pidLongTimeout*d, shortTimeout*d, midTimeout*d, pidNever*d, outerTimeout*d
+}
 
 type line struct {
 	model, obs, judge string
@@ -143,7 +161,7 @@ func genReload(r *rng.R, pid int, slowOK bool) rspec {
 	}
 	sc := &Script{Kill: true, Child: "changed", PidPolls: "p", PidRead: pidContent(r, pid)}
 	pp, pr := "p", strconv.Itoa(pid)
-	pidTimeout := longTimeout
+	pidTimeout := pidLongTimeout
 	kind := []string{}
 	// pid file
 	switch p := r.Intn(100); {
@@ -155,7 +173,7 @@ func genReload(r *rng.R, pid int, slowOK bool) rspec {
 		kind = append(kind, "pid-late-stat-err")
 	case slowOK:
 		sc.PidPolls, pp = "m", "m,m"
-		pidTimeout = 650 * time.Millisecond
+		pidTimeout = pidNever
 		kind = append(kind, "pid-never")
 	case p < 4:
 		sc.PidPolls, pp = "s", "s"
@@ -216,6 +234,9 @@ func genReload(r *rng.R, pid int, slowOK bool) rspec {
 	timeout := longTimeout
 	if !term || sc.Child == "same" || !modelled {
 		timeout = shortTimeout
+		if sc.Child == "delayed" { // the respawn must be seen well before the (short) deadline
+			sc.DelayMs = 5
+		}
 	}
 	if len(kind) == 0 {
 		kind = append(kind, "clean")
@@ -248,7 +269,7 @@ func runReload(root string, pid int, s rspec) (out line) {
 	mc := &metrics{}
 	vc := ngxruntime.VerifC12NewVerifyClient(m.sock, timeout)
 	mgr := ngxruntime.NewManagerImpl(nil, mc, logr.Discard(), newProcHandler(m, pidTimeout), vc)
-	ctx, cancel := context.WithTimeout(context.Background(), 20*time.Second)
+	ctx, cancel := context.WithTimeout(context.Background(), outerTimeout)
 	rerr := mgr.Reload(ctx, n)
 	cancel()
 	hup, chg, served, vr, kc := m.state()
@@ -311,11 +332,25 @@ func waitCase(r *rng.R, root string, pid int) (out line) {
 		}
 	}
 	vs, term := genVers(r, n)
+	if !term && childTerm && reads[len(reads)-1] != "e" && k > 0 && r.Chance(3, 4) {
+		reads, k = reads[len(reads)-1:], 0
+	}
 	sc := &Script{Vers: vs, Stale: staleOf(r, n), Kill: true}
 	m.install(sc)
+	// Deadlines are wall-clock. A short one is used only where nothing scripted has to be reached before it
+	// (children never change; or they change at the FIRST read and the version script never terminates).
+	// A children script that ends in a read error aborts the wait: the version script is not consulted,
+	// so the long deadline costs nothing. Late workers + a version that never comes need a deadline
+	// >= 50 x the time of the last scripted read (k x 25 ms).
 	timeout := longTimeout
-	if !term || !childTerm {
+	switch {
+	case !childTerm:
 		timeout = shortTimeout
+	case reads[len(reads)-1] == "e":
+	case !term && k == 0:
+		timeout = shortTimeout
+	case !term:
+		timeout = midTimeout
 	}
 	content := func(id string) []byte { return []byte("w" + id + " ") }
 	var mu sync.Mutex
@@ -335,7 +370,7 @@ func waitCase(r *rng.R, root string, pid int) (out line) {
 		return content(c), nil
 	}
 	vc := ngxruntime.VerifC12NewVerifyClient(m.sock, timeout)
-	ctx, cancel := context.WithTimeout(context.Background(), 20*time.Second)
+	ctx, cancel := context.WithTimeout(context.Background(), outerTimeout)
 	rerr := vc.WaitForCorrectVersion(ctx, n, m.childPath, content(strconv.Itoa(prev)), readFile)
 	cancel()
 	_, _, served, vr, _ := m.state()
@@ -386,9 +421,9 @@ func corpusReload(l string, pid int) (rspec, bool) {
 	sc := &Script{Kill: f["kill"] != "0", Spurious: f["spurious"] == "1", PrevErr: f["prev"] == "e",
 		PidPolls: strings.ReplaceAll(f["pp"], ",", ""), PidRead: strconv.Itoa(pid) + "\n", Stale: n + 1000}
 	s := rspec{n: n, sc: sc, pp: f["pp"], pr: strconv.Itoa(pid), prev: "1", ch: f["ch"], modelled: true,
-		pidTimeout: longTimeout, timeout: longTimeout, kind: []string{"corpus"}}
+		pidTimeout: pidLongTimeout, timeout: longTimeout, kind: []string{"corpus"}}
 	if !strings.Contains(sc.PidPolls, "p") && !strings.Contains(sc.PidPolls, "s") {
-		s.pidTimeout = 650 * time.Millisecond
+		s.pidTimeout = pidNever
 	}
 	switch f["pr"] {
 	case "e":
